@@ -65,12 +65,44 @@ Definition map_body (fp : bool) (k : mapkind) (kvs : list (pyval * pyval)) : res
   | KODict => do d <- hashable_mapping false items; Ok (conv (tp_map k) d)
   | KDefault f => do d <- hashable_mapping true items; Ok (conv (tp_map k) (PTuple [factory_val f; d]))
   | KCounter =>
-      do its <- py_sort item_lt items;
+      do its <- py_sort item_lt (mk_items fp (strip kvs));
       Ok (conv (tp_map k) (PTuple (map (fun it : item => pair_t (fst (fst it)) (snd (fst it))) its)))
   | KDict => do d <- hashable_mapping true items; Ok (conv (tp_map k) d)
   end.
+Lemma filter_items : forall fp kvs,
+  filter (fun it : item => negb (is_zero (snd (fst it)))) (mk_items fp kvs) = mk_items fp (strip kvs).
+Proof.
+  intros fp kvs. unfold mk_items, strip. induction kvs as [|kv kvs IH]; simpl; auto.
+  unfold nzc at 1. destruct (negb (is_zero (snd kv))); simpl; rewrite IH; reflexivity.
+Qed.
 Lemma th_map : forall fp k kvs, to_hashable fp (PMap k kvs) = map_body fp k kvs.
-Proof. reflexivity. Qed.
+Proof.
+  intros fp k kvs. destruct k; try reflexivity.
+  change (to_hashable fp (PMap KCounter kvs)) with
+    (do its <- py_sort item_lt (filter (fun it : item => negb (is_zero (snd (fst it)))) (mk_items fp kvs));
+     Ok (conv (tp_map KCounter) (PTuple (map (fun it : item => pair_t (fst (fst it)) (snd (fst it))) its)))).
+  rewrite filter_items. reflexivity.
+Qed.
+
+Lemma strip_incl : forall kvs kv, In kv (strip kvs) -> In kv kvs.
+Proof. intros kvs kv H. unfold strip in H. apply filter_In in H. tauto. Qed.
+Lemma strip_nonzero : forall kvs kv, In kv (strip kvs) -> is_zero (snd kv) = false.
+Proof. intros kvs kv H. unfold strip in H. apply filter_In in H. destruct H as [_ H]. unfold nzc in H. apply negb_true_iff in H. exact H. Qed.
+Lemma strip_nodup : forall kvs, nodup_by (rel false) (map fst kvs) = true -> nodup_by (rel false) (map fst (strip kvs)) = true.
+Proof.
+  induction kvs as [|kv kvs IH]; simpl; intros H; auto.
+  apply andb_true_iff in H. destruct H as [Hx Ht]. unfold nzc at 1. destruct (negb (is_zero (snd kv))); simpl; auto.
+  rewrite IH by auto. rewrite andb_true_r. apply negb_true_iff in Hx. apply negb_true_iff.
+  destruct (existsb (rel false (fst kv)) (map fst (strip kvs))) eqn:E; auto.
+  apply existsb_exists in E. destruct E as (y & Hy & Hr). apply in_map_iff in Hy. destruct Hy as (kv2 & <- & Hin).
+  assert (existsb (rel false (fst kv)) (map fst kvs) = true); [|congruence].
+  apply existsb_exists. exists (fst kv2). split; auto. apply in_map. apply strip_incl. exact Hin.
+Qed.
+Lemma mk_items_strip_incl : forall fp kvs it, In it (mk_items fp (strip kvs)) -> In it (mk_items fp kvs).
+Proof.
+  intros fp kvs it H. unfold mk_items in *. apply in_map_iff in H. destruct H as (kv & <- & Hin).
+  apply in_map_iff. exists kv. split; auto. apply strip_incl. exact Hin.
+Qed.
 
 (* ---------- mapM ---------- *)
 Lemma mapM_Forall2 {A B} (f : A -> result B) : forall l out,
@@ -279,7 +311,7 @@ Proof.
     + destruct (py_sort item_lt _) as [its|e] eqn:Hs; [|discriminate]. cbn [bind] in Hth. inversion Hth; subst.
       apply conv_hashable. simpl. apply py_sort_perm in Hs.
       apply forallb_forall. intros y Hy. apply in_map_iff in Hy. destruct Hy as (it & <- & Hit).
-      apply (Permutation_in _ (Permutation_sym Hs)) in Hit.
+      apply (Permutation_in _ (Permutation_sym Hs)) in Hit. apply mk_items_strip_incl in Hit.
       destruct (Hitems it Hit) as [Hk _]. apply in_mk_items in Hit. destruct Hit as (kv & Hkv & ->). simpl in *.
       rewrite Hk. rewrite forallb_forall in Hkind. specialize (Hkind kv Hkv).
       rewrite (scalar_hashable (snd kv)); [reflexivity|]. rewrite Hkind. reflexivity.
@@ -555,10 +587,9 @@ Proof.
 Qed.
 
 (* ---------- the guard of the partial theorems and its inheritance by sub-values ---------- *)
-Definition g (v : pyval) : bool := wf v && homogeneous_sortable v && no_pandas v && no_zero_count v.
-Ltac gsplit H Hwf Hhs Hnp Hnz :=
-  unfold g in H; apply andb_true_iff in H; destruct H as [H Hnz];
-  apply andb_true_iff in H; destruct H as [H Hnp]; apply andb_true_iff in H; destruct H as [Hwf Hhs].
+Definition g (v : pyval) : bool := wf v && homogeneous_sortable v && no_pandas v.
+Ltac gsplit H Hwf Hhs Hnp :=
+  unfold g in H; apply andb_true_iff in H; destruct H as [H Hnp]; apply andb_true_iff in H; destruct H as [Hwf Hhs].
 
 Lemma fn_seq : forall q sk l, forall_nodes q (PSeq sk l) = q (PSeq sk l) && forallb (forall_nodes q) l.
 Proof. reflexivity. Qed.
@@ -568,16 +599,15 @@ Lemma fn_map : forall q mk kvs, forall_nodes q (PMap mk kvs) =
   q (PMap mk kvs) && forallb (fun kv => forall_nodes q (fst kv) && forall_nodes q (snd kv)) kvs.
 Proof. reflexivity. Qed.
 
-Lemma g_intro : forall v, wf v = true -> homogeneous_sortable v = true -> no_pandas v = true ->
-  no_zero_count v = true -> g v = true.
-Proof. intros v H1 H2 H3 H4. unfold g. rewrite H1, H2, H3, H4. reflexivity. Qed.
+Lemma g_intro : forall v, wf v = true -> homogeneous_sortable v = true -> no_pandas v = true -> g v = true.
+Proof. intros v H1 H2 H3. unfold g. rewrite H1, H2, H3. reflexivity. Qed.
 
 Lemma g_seq_children : forall sk l, g (PSeq sk l) = true -> (forall d sh, sk <> KNd true d sh) ->
   Forall (fun x => g x = true) l.
 Proof.
-  intros sk l H Hsk. gsplit H Hwf Hhs Hnp Hnz.
-  unfold homogeneous_sortable in Hhs. unfold no_pandas in Hnp. unfold no_zero_count in Hnz.
-  rewrite fn_seq in Hhs, Hnp, Hnz. bsplit.
+  intros sk l H Hsk. gsplit H Hwf Hhs Hnp.
+  unfold homogeneous_sortable in Hhs. unfold no_pandas in Hnp.
+  rewrite fn_seq in Hhs, Hnp. bsplit.
   assert (Hw : forallb wf l = true).
   { simpl in Hwf. bsplit. destruct sk; auto. destruct masked; auto. exfalso. eapply Hsk; eauto. }
   apply Forall_forall. intros x Hx.
@@ -587,9 +617,9 @@ Qed.
 
 Lemma g_map_values : forall mk kvs, g (PMap mk kvs) = true -> Forall (fun kv => g (snd kv) = true) kvs.
 Proof.
-  intros mk kvs H. gsplit H Hwf Hhs Hnp Hnz.
-  unfold homogeneous_sortable in Hhs. unfold no_pandas in Hnp. unfold no_zero_count in Hnz.
-  rewrite fn_map in Hhs, Hnp, Hnz. simpl in Hwf. bsplit.
+  intros mk kvs H. gsplit H Hwf Hhs Hnp.
+  unfold homogeneous_sortable in Hhs. unfold no_pandas in Hnp.
+  rewrite fn_map in Hhs, Hnp. simpl in Hwf. bsplit.
   apply Forall_forall. intros x Hx.
   repeat match goal with H : forallb _ kvs = true |- _ => rewrite forallb_forall in H; specialize (H x Hx) end.
   bsplit. apply g_intro; auto.
@@ -898,43 +928,37 @@ Proof.
       cbn [bind] in Hk, Hk'. inversion Hk; inversion Hk'; subst. rewrite conv_rel, str_eqb_refl. cbn [andb].
       rewrite rel_tuple. cbn [rel_list]. rewrite factory_rel_refl. cbn [andb]. rewrite andb_true_r.
       eapply (map_canon fp kvs kvs'); eauto; eapply hs_map_keys; eauto; discriminate.
-    + destruct (py_sort item_lt (mk_items fp kvs)) as [its|e] eqn:Hs; [|discriminate].
-      destruct (py_sort item_lt (mk_items fp kvs')) as [its'|e] eqn:Hs'; [|discriminate].
+    + destruct (py_sort item_lt (mk_items fp (strip kvs))) as [its|e] eqn:Hs; [|discriminate].
+      destruct (py_sort item_lt (mk_items fp (strip kvs'))) as [its'|e] eqn:Hs'; [|discriminate].
       cbn [bind] in Hk, Hk'. inversion Hk; inversion Hk'; subst. rewrite conv_rel, str_eqb_refl. cbn [andb].
       rewrite rel_tuple.
       assert (Hhk : homog (map fst kvs) = true) by (eapply hs_map_keys; eauto; discriminate).
       assert (Hhk' : homog (map fst kvs') = true) by (eapply hs_map_keys; eauto; discriminate).
       destruct (homog_class _ Hhk) as [c Hc]. destruct (homog_class _ Hhk') as [c' Hc'].
-      assert (Hnz : forall kv, In kv kvs -> is_zero (snd kv) = false).
-      { intros kv Hkv. unfold g in Hg. bsplit.
-        match goal with H : no_zero_count _ = true |- _ => unfold no_zero_count in H; rewrite fn_map in H;
-          apply andb_true_iff in H; destruct H as [H _]; rewrite forallb_forall in H; specialize (H kv Hkv);
-          apply negb_true_iff in H; exact H end. }
-      assert (Hnz' : forall kv, In kv kvs' -> is_zero (snd kv) = false).
-      { intros kv Hkv. unfold g in Hg'. bsplit.
-        match goal with H : no_zero_count _ = true |- _ => unfold no_zero_count in H; rewrite fn_map in H;
-          apply andb_true_iff in H; destruct H as [H _]; rewrite forallb_forall in H; specialize (H kv Hkv);
-          apply negb_true_iff in H; exact H end. }
-      unfold rel_counter in Hrel. apply andb_true_iff in Hrel. destruct Hrel as [Hr1 Hr2].
-      rewrite forallb_forall in Hr1, Hr2.
-      assert (Hone : forall kv, In kv kvs -> exists kv', In kv' kvs' /\ rel true (fst kv) (fst kv') = true
+      assert (Hcs : Forall (fun x => vclass x = Some c) (map fst (strip kvs))).
+      { rewrite Forall_forall in *. intros x Hx. apply in_map_iff in Hx. destruct Hx as (kv & <- & Hin).
+        apply Hc. apply in_map. apply strip_incl. exact Hin. }
+      assert (Hcs' : Forall (fun x => vclass x = Some c') (map fst (strip kvs'))).
+      { rewrite Forall_forall in *. intros x Hx. apply in_map_iff in Hx. destruct Hx as (kv & <- & Hin).
+        apply Hc'. apply in_map. apply strip_incl. exact Hin. }
+      rewrite rel_counter_strip in Hrel. unfold rel_dict in Hrel.
+      apply andb_true_iff in Hrel. destruct Hrel as [Hlen Hall]. apply Nat.eqb_eq in Hlen.
+      rewrite forallb_forall in Hall.
+      assert (Hone : forall kv, In kv (strip kvs) -> exists kv', In kv' (strip kvs') /\ rel true (fst kv) (fst kv') = true
                                                       /\ rel true (snd kv) (snd kv') = true).
-      { intros kv Hkv. specialize (Hr1 kv Hkv). rewrite (Hnz kv Hkv) in Hr1. simpl in Hr1. rewrite orb_false_r in Hr1.
-        apply existsb_exists in Hr1. destruct Hr1 as (kv' & Hkv' & Hr). apply andb_true_iff in Hr. destruct Hr.
-        eauto. }
-      assert (Htwo : forall kv', In kv' kvs' -> exists kv, In kv kvs /\ rel true (fst kv) (fst kv') = true
-                                                       /\ rel true (snd kv) (snd kv') = true).
-      { intros kv' Hkv'. specialize (Hr2 kv' Hkv'). rewrite (Hnz' kv' Hkv') in Hr2. simpl in Hr2.
-        rewrite orb_false_r in Hr2.
-        apply existsb_exists in Hr2. destruct Hr2 as (kv & Hkv & Hr). apply andb_true_iff in Hr. destruct Hr.
+      { intros kv Hkv. specialize (Hall kv Hkv).
+        apply existsb_exists in Hall. destruct Hall as (kv' & Hkv' & Hr). apply andb_true_iff in Hr. destruct Hr.
         eauto. }
       simpl in Hwf, Hwf'.
       apply andb_true_iff in Hwf. destruct Hwf as [Hwf Hci]. apply andb_true_iff in Hwf. destruct Hwf as [_ Hnd].
       apply andb_true_iff in Hwf'. destruct Hwf' as [Hwf' Hci']. apply andb_true_iff in Hwf'. destruct Hwf' as [_ Hnd'].
-      assert (HR := items_canon fp c c' (fun v v' => rel true v v' = true) kvs kvs' its its'
-                      Hnd Hnd' Hc Hc' Hone Htwo Hs Hs').
+      assert (Htwo := dict_h2 c c' (fun v v' => rel true v v' = true) (strip kvs) (strip kvs')
+                        (strip_nodup _ Hnd) (strip_nodup _ Hnd') Hcs Hcs' Hlen Hone).
+      assert (HR := items_canon fp c c' (fun v v' => rel true v v' = true) (strip kvs) (strip kvs') its its'
+                      (strip_nodup _ Hnd) (strip_nodup _ Hnd') Hcs Hcs' Hone Htwo Hs Hs').
       eapply counter_rel; eauto.
       intros it Hit. apply py_sort_perm in Hs. apply (Permutation_in _ (Permutation_sym Hs)) in Hit.
+      apply mk_items_strip_incl in Hit.
       apply in_mk_items in Hit. destruct Hit as (kv & Hkv & ->). simpl.
       rewrite forallb_forall in Hci. apply scalar_atomic. rewrite (Hci kv Hkv). reflexivity.
   - unfold g in Hg. bsplit. match goal with H : no_pandas _ = true |- _ => unfold no_pandas in H; simpl in H; discriminate end.
@@ -943,11 +967,11 @@ Qed.
 
 Theorem eq_implies_key_eq : forall fp v w k k',
   wf v = true -> wf w = true -> homogeneous_sortable v = true -> homogeneous_sortable w = true ->
-  no_pandas v = true -> no_pandas w = true -> no_zero_count v = true -> no_zero_count w = true ->
+  no_pandas v = true -> no_pandas w = true ->
   py_same v w = true -> to_hashable fp v = Ok k -> to_hashable fp w = Ok k' -> py_eq k k' = true.
 Proof.
-  intros fp v w k k' H1 H2 H3 H4 H5 H6 H7 H8 Hs Hk Hk'.
-  exact (eq_implies_key_eq_g fp v w (g_intro v H1 H3 H5 H7) (g_intro w H2 H4 H6 H8) Hs k k' Hk Hk').
+  intros fp v w k k' H1 H2 H3 H4 H5 H6 Hs Hk Hk'.
+  exact (eq_implies_key_eq_g fp v w (g_intro v H1 H3 H5) (g_intro w H2 H4 H6) Hs k k' Hk Hk').
 Qed.
 
 (* ================= totality ================= *)
@@ -1046,18 +1070,20 @@ Proof.
     assert (Hnd : nodup_by (rel false) (map fst kvs) = true).
     { simpl in Hwf. apply andb_true_iff in Hwf. destruct Hwf as [Hwf _]. apply andb_true_iff in Hwf.
       destruct Hwf as [_ Hnd]. exact Hnd. }
-    assert (Hsort : mk <> KODict -> exists its, py_sort item_lt (mk_items fp kvs) = Ok its
-                                               /\ Permutation (mk_items fp kvs) its).
-    { intros Hmk. destruct (homog_class _ (hs_map_keys _ _ Hhs Hmk)) as [c Hcl].
+    assert (Hsort : mk <> KODict -> forall kz, (forall kv, In kv kz -> In kv kvs) ->
+              nodup_by (rel false) (map fst kz) = true ->
+              exists its, py_sort item_lt (mk_items fp kz) = Ok its /\ Permutation (mk_items fp kz) its).
+    { intros Hmk kz Hkz Hndz. destruct (homog_class _ (hs_map_keys _ _ Hhs Hmk)) as [c Hcl].
       rewrite Forall_forall in Hcl.
-      assert (HS : Forall (fun it : item => vclass (fst (fst it)) = Some c) (mk_items fp kvs)).
+      assert (HS : Forall (fun it : item => vclass (fst (fst it)) = Some c) (mk_items fp kz)).
       { apply Forall_forall. intros it Hit. apply in_mk_items in Hit. destruct Hit as (kv & Hkv & ->). simpl.
         apply Hcl. apply in_map. auto. }
       destruct (sort_items c _ HS) as (its & Hs & Hp & _).
       { unfold mk_items. rewrite map_map. simpl.
-        replace (map (fun x : pyval * pyval => ikey (fst x, snd x, to_hashable fp (snd x))) kvs)
-          with (map skey (map fst kvs)) by (rewrite map_map; reflexivity).
-        eapply nodup_keys; eauto. apply Forall_forall. auto. }
+        replace (map (fun x : pyval * pyval => ikey (fst x, snd x, to_hashable fp (snd x))) kz)
+          with (map skey (map fst kz)) by (rewrite map_map; reflexivity).
+        eapply nodup_keys; eauto. apply Forall_forall. intros x Hx. apply in_map_iff in Hx.
+        destruct Hx as (kv & <- & Hin). apply Hcl. apply in_map. auto. }
       eauto. }
     assert (Hout : forall its, Permutation (mk_items fp kvs) its ->
               exists out, mapM (fun it : item => do hv <- snd it; Ok (pair_t (fst (fst it)) hv)) its = Ok out).
@@ -1065,12 +1091,13 @@ Proof.
       apply in_mk_items in Hit. destruct Hit as (kv & Hkv & ->). simpl.
       destruct (Hvals kv Hkv) as [hv Hhv]. rewrite Hhv. cbn [bind]. eauto. }
     unfold map_body, hashable_mapping. destruct mk.
-    + destruct Hsort as (its & Hs & Hp); [discriminate|]. rewrite Hs. cbn [bind].
+    + destruct (Hsort ltac:(discriminate) kvs (fun _ H => H) Hnd) as (its & Hs & Hp). rewrite Hs. cbn [bind].
       destruct (Hout its Hp) as [out Ho]. rewrite Ho. cbn [bind]. eauto.
     + cbn [bind]. destruct (Hout _ (Permutation_refl _)) as [out Ho]. rewrite Ho. cbn [bind]. eauto.
-    + destruct Hsort as (its & Hs & Hp); [discriminate|]. rewrite Hs. cbn [bind].
+    + destruct (Hsort ltac:(discriminate) kvs (fun _ H => H) Hnd) as (its & Hs & Hp). rewrite Hs. cbn [bind].
       destruct (Hout its Hp) as [out Ho]. rewrite Ho. cbn [bind]. eauto.
-    + destruct Hsort as (its & Hs & Hp); [discriminate|]. rewrite Hs. cbn [bind]. eauto.
+    + destruct (Hsort ltac:(discriminate) (strip kvs) (strip_incl kvs) (strip_nodup _ Hnd)) as (its & Hs & Hp).
+      rewrite Hs. cbn [bind]. eauto.
   - unfold g0 in Hg. bsplit. match goal with H : no_pandas _ = true |- _ => unfold no_pandas in H; simpl in H; discriminate end.
   - unfold g0 in Hg. bsplit. match goal with H : no_pandas _ = true |- _ => unfold no_pandas in H; simpl in H; discriminate end.
 Qed.
@@ -1097,14 +1124,6 @@ Lemma eq_implies_key_eq_refuted_partial_order :
   exists v w k k', supported v = true /\ supported w = true /\ py_same v w = true
                    /\ to_hashable true v = Ok k /\ to_hashable true w = Ok k' /\ py_eq k k' = false.
 Proof. exists w_fs_dict1, w_fs_dict2. do 2 eexists. repeat split; vm_compute; reflexivity. Qed.
-
-(* Counter({'a': 0}) == Counter() but the keys differ *)
-Lemma eq_implies_key_eq_refuted_counter :
-  exists v w k k', supported v = true /\ supported w = true /\ py_same v w = true
-                   /\ to_hashable true v = Ok k /\ to_hashable true w = Ok k' /\ py_eq k k' = false.
-Proof.
-  exists (PCounter [(PStr (s "a"), PInt 0)]), (PCounter []). do 2 eexists. repeat split; vm_compute; reflexivity.
-Qed.
 
 (* pd.Series([1, 2], index=['a', 'b']) vs pd.Series([2, 1], index=['b', 'a']): different values, EQUAL keys *)
 Definition w_series1 : pyval := PSeries ANone (s "<i8") [AStr (s "a"); AStr (s "b")] [AInt 1; AInt 2].
@@ -1155,7 +1174,7 @@ Definition payload_of (fp : bool) (v p : pyval) : Prop :=
       | KDict => hashable_mapping true (mk_items fp kvs) = Ok p
       | KODict => hashable_mapping false (mk_items fp kvs) = Ok p
       | KDefault f => exists d, hashable_mapping true (mk_items fp kvs) = Ok d /\ p = PTuple [factory_val f; d]
-      | KCounter => exists its, py_sort item_lt (mk_items fp kvs) = Ok its
+      | KCounter => exists its, py_sort item_lt (mk_items fp (strip kvs)) = Ok its
                                 /\ p = PTuple (map (fun it : item => pair_t (fst (fst it)) (snd (fst it))) its)
       end
   | _ => True
@@ -1377,21 +1396,6 @@ Proof.
   - apply forallb_forall. intros kv Hkv. apply existsb_exists.
     destruct (Forall2_in_l _ _ _ HR _ (kv_in_items fp kvs its kv Hp Hkv)) as (it' & Hit' & [Hk Hv]).
     destruct (in_items_kv fp kvs' its' it' Hp' Hit') as [Hin _]. exists (fst it'). split; auto.
-    simpl in Hk, Hv. rewrite Hk, Hv. reflexivity.
-Qed.
-
-Lemma rel_counter_from_forall2 : forall fp kvs kvs' (its its' : list item),
-  Permutation (mk_items fp kvs) its -> Permutation (mk_items fp kvs') its' ->
-  Forall2 itemT its its' -> rel_counter true kvs kvs' = true.
-Proof.
-  intros fp kvs kvs' its its' Hp Hp' HR. unfold rel_counter. apply andb_true_iff. split.
-  - apply forallb_forall. intros kv Hkv. apply orb_true_iff. left. apply existsb_exists.
-    destruct (Forall2_in_l _ _ _ HR _ (kv_in_items fp kvs its kv Hp Hkv)) as (it' & Hit' & [Hk Hv]).
-    destruct (in_items_kv fp kvs' its' it' Hp' Hit') as [Hin _]. exists (fst it'). split; auto.
-    simpl in Hk, Hv. rewrite Hk, Hv. reflexivity.
-  - apply forallb_forall. intros kv' Hkv'. apply orb_true_iff. left. apply existsb_exists.
-    destruct (Forall2_in_r _ _ _ HR _ (kv_in_items fp kvs' its' kv' Hp' Hkv')) as (it & Hit & [Hk Hv]).
-    destruct (in_items_kv fp kvs its it Hp Hit) as [Hin _]. exists (fst it). split; auto.
     simpl in Hk, Hv. rewrite Hk, Hv. reflexivity.
 Qed.
 
@@ -1637,12 +1641,14 @@ Proof.
         rewrite rel_tuple in Hpp.
         assert (Hpi := py_sort_perm _ _ _ Hso). assert (Hpi' := py_sort_perm _ _ _ Hso').
         simpl in Hwf. apply andb_true_iff in Hwf. destruct Hwf as [_ Hci]. rewrite forallb_forall in Hci.
-        rewrite rel_map_unfold. simpl. eapply rel_counter_from_forall2; eauto.
+        rewrite rel_map_unfold. simpl. rewrite rel_counter_strip.
+        eapply (rel_dict_from_forall2 fp (strip kvs) (strip kvs')); eauto.
         apply counter_items_inj; auto.
-        -- intros it Hit. destruct (Hits its Hpi it Hit) as (Hw & Hhk & _ & _).
-           destruct (in_items_kv fp kvs its it Hpi Hit) as [Hin _].
+        -- intros it Hit. destruct (in_items_kv fp (strip kvs) its it Hpi Hit) as [Hin _].
+           apply strip_incl in Hin. destruct (Hparts _ Hin) as (_ & Hwk & Hhk).
            split; auto. split; auto. apply scalar_atomic. rewrite (Hci _ Hin). reflexivity.
-        -- intros it Hit. destruct (Hits' its' Hpi' it Hit) as (Hw & Hhk & _ & _). auto.
+        -- intros it Hit. destruct (in_items_kv fp (strip kvs') its' it Hpi' Hit) as [Hin _].
+           apply strip_incl in Hin. destruct (Hparts' _ Hin) as (_ & Hwk & Hhk). auto.
     + unfold no_pandas in Hnp'. simpl in Hnp'. discriminate.
     + unfold no_pandas in Hnp'. simpl in Hnp'. discriminate.
   - destruct (sg_parts _ Hs) as (_ & _ & Hnp). unfold no_pandas in Hnp. simpl in Hnp. discriminate.
